@@ -545,10 +545,11 @@ def possible_values(fa, expr, at, _depth=0):
                 out += possible_values(fa, d.value, d.node, _depth + 1)
             elif d.kind == "for" and isinstance(d.stmt, (ast.For, ast.AsyncFor)):
                 it = d.stmt.iter
-                if isinstance(it, ast.Name):
-                    ds = fa.df.reaching(d.node, it.id)
-                    if len(ds) == 1 and ds[0].kind == "assign" and ds[0].value is not None:
-                        it = ds[0].value
+                for _ in range(4):  # the iterable may be bound to a local, a module-level or a class-level name
+                    b = _bound_value(fa, it, d.node)
+                    if b is None:
+                        break
+                    it = b
                 items = None
                 if isinstance(it, (ast.Tuple, ast.List)):
                     items = list(it.elts)
@@ -593,18 +594,54 @@ MAY_RAISE = {
 }
 
 
-def _literal_seq(fa, it, at):
-    """Elements of a literal tuple / list / set (possibly bound to a local or a module-level name), else None."""
-    if isinstance(it, ast.Name):
-        if fa.df.is_local(it.id):
-            ds = fa.df.reaching(at, it.id)
+def _bound_value(fa, e, at):
+    """The expression a name stands for, when that is evident: a local with one reaching plain assignment, a module-level
+    name of this module or of the repository module it is imported from, a class-level constant read as `self.X` / `cls.X` /
+    `Class.X` in a method of that class (and never assigned through an instance).  None otherwise."""
+    if isinstance(e, ast.Name):
+        if fa.df.is_local(e.id):
+            ds = fa.df.reaching(at, e.id)
             if len(ds) == 1 and ds[0].kind == "assign" and ds[0].value is not None:
-                return _literal_seq(fa, ds[0].value, ds[0].node)
+                return ds[0].value
             return None
-        v = fa.fi.module.assigns.get(it.id)
-        return _literal_seq(fa, v, at) if v is not None else None
+        mod = fa.fi.module
+        if e.id in mod.assigns:
+            return mod.assigns[e.id]
+        origin = mod.imports.get(e.id)
+        if origin and ":" in origin:
+            m_, n_ = origin.split(":", 1)
+            other = fa.ck.repo.modules.get(m_.lstrip(".").split(".")[-1])
+            if other is not None and n_ in other.assigns:
+                return other.assigns[n_]
+        return None
+    if isinstance(e, ast.Attribute) and isinstance(e.value, ast.Name):
+        k = fa.fi.cls
+        while k is not None:
+            if e.value.id in ("self", "cls", k.name):
+                for st in k.node.body:
+                    for (tg, v) in ([(t, st.value) for t in st.targets] if isinstance(st, ast.Assign) else
+                                    [(st.target, st.value)] if isinstance(st, ast.AnnAssign) and st.value is not None else []):
+                        if isinstance(tg, ast.Name) and tg.id == e.attr:
+                            stores = [n for m in k.methods.values() for n in ast.walk(m.node)
+                                      if isinstance(n, ast.Attribute) and n.attr == e.attr and isinstance(n.ctx, (ast.Store, ast.Del))]
+                            return None if stores else v
+            k = getattr(k, "outer", None)
+    return None
+
+
+def _literal_seq(fa, it, at, _depth=0):
+    """Elements of a literal tuple / list / set (possibly bound to a local, module-level or class-level name), else None."""
     if isinstance(it, (ast.Tuple, ast.List, ast.Set)):
         return list(it.elts)
+    if _depth > 4:
+        return None
+    if isinstance(it, ast.Call) and A.call_dotted(it) in ("tuple", "list", "sorted", "frozenset", "set") and len(it.args) == 1 and not it.keywords:
+        return _literal_seq(fa, it.args[0], at, _depth + 1)
+    v = _bound_value(fa, it, at)
+    if v is not None:
+        if isinstance(it, ast.Name) and fa.df.is_local(it.id):
+            at = fa.df.reaching(at, it.id)[0].node
+        return _literal_seq(fa, v, at, _depth + 1)
     return None
 
 
@@ -639,14 +676,11 @@ def table_entries(fa, expr, at, _depth=0):
     if isinstance(expr, ast.BinOp) and isinstance(expr.op, ast.BitOr):
         l, r = table_entries(fa, expr.left, at, _depth + 1), table_entries(fa, expr.right, at, _depth + 1)
         return None if l is None or r is None else l + r
-    if isinstance(expr, ast.Name):
-        if fa.df.is_local(expr.id):
-            ds = [d for d in fa.df.reaching(at, expr.id)]
-            if len(ds) == 1 and ds[0].kind == "assign" and ds[0].value is not None:
-                return table_entries(fa, ds[0].value, ds[0].node, _depth + 1)
-            return None
-        v = fa.fi.module.assigns.get(expr.id)
-        return table_entries(fa, v, at, _depth + 1) if v is not None else None
+    v = _bound_value(fa, expr, at)
+    if v is not None:
+        if isinstance(expr, ast.Name) and fa.df.is_local(expr.id):
+            at = fa.df.reaching(at, expr.id)[0].node
+        return table_entries(fa, v, at, _depth + 1)
     return None
 
 
@@ -731,14 +765,57 @@ def check_order(ck, R):
     ck.need(n >= 4, "dispatch-order rule found only %d comparable pairs" % n)
 
 
+def classifies_exception(ck):
+    """Does ResultType.from_object answer ResultType.exception for every MementoException?  Decided on the path classes of
+    from_object, whatever its shape (early returns, elif chain assigning a result variable, ...): every way out (return or
+    raise) has first tested `isinstance(<obj>, MementoException)`; the ways out on which the test held return
+    ResultType.exception; no raise lies on them."""
+    memo = ck.__dict__.setdefault("_c02_classifies_exception", {})
+    if "v" in memo:
+        return memo["v"]
+    memo["v"] = False
+    fo = ck.repo.try_func("metadata.ResultType.from_object")
+    if fo is None or not fo.params:
+        return False
+    obj = fo.params[0] if fo.is_static else (fo.params + [None])[1]
+
+    def is_me(e):
+        it = A.isinstance_types(e)
+        return bool(it) and it[0] == obj and any(t.split(".")[-1] == "MementoException" for t in it[1])
+
+    def polarity(lits):
+        return {p for (tx, p) in lits if not tx.startswith("@") and is_me(_parse(tx))}
+
+    try:
+        fa = FA(ck, fo)
+        S = Sym(fa, watch=lambda tx, e: is_me(e))
+        rets = S.return_states()
+        ok = bool(rets)
+        seen = False
+        for (_r, _env, lits, v) in rets:
+            pol = polarity(lits)
+            if not pol:
+                ok = False
+            if True in pol:
+                seen = True
+                ok = ok and v == "ResultType.exception"
+        for r in fa.stmts(ast.Raise):
+            for (_env, lits) in S.at(r):
+                pol = polarity(lits)
+                if not pol or True in pol:
+                    ok = False
+        memo["v"] = bool(ok and seen)
+    except AnalysisError:
+        memo["v"] = False
+    return memo["v"]
+
+
 def _runner_sym(ck, fa, **kw):
     """Symbolic view with the facts the runner rules share: ExistingMementoResult is a named tuple that
     process_existing_memento returns; a constructed object's class decides isinstance tests on it; classifying a
     MementoException yields ResultType.exception (checked on from_object's first rung)."""
     tuples = {"ExistingMementoResult": namedtuple_fields(ck, "runner", "ExistingMementoResult")}
-    fo = ck.repo.try_func("metadata.ResultType.from_object")
-    lad = extract_ladder(fo.node) if fo is not None else []
-    exc_first = bool(lad) and lad[0][0] == ["MementoException"] and lad[0][1] == "return ResultType.exception"
+    exc_first = classifies_exception(ck)
 
     def rewrite(n):
         if exc_first and isinstance(n, ast.Call) and A.call_dotted(n) == "ResultType.from_object" and len(n.args) == 1 and not n.keywords:
